@@ -58,7 +58,7 @@ Theorem C07_env_benign : forall c, in_quantifier c = true -> is_regevo c = false
 Proof. exact env_benign_non_regevo. Qed.
 Print Assumptions C07_env_benign.
 
-(* F25: RegularizedEvolution._ask iterates list(space.get_active_hyperparameters(...)), a set of str: order = PYTHONHASHSEED. *)
+(* F47: RegularizedEvolution._ask iterates list(space.get_active_hyperparameters(...)), a set of str: order = PYTHONHASHSEED. *)
 Theorem C07_regevo_refuted : forall c, is_regevo c = true -> esite_in prefix_regevo_site nenv = true -> env_ok wfacts c nenv = false.
 Proof. exact regevo_refuted. Qed.
 Print Assumptions C07_regevo_refuted.
